@@ -113,6 +113,41 @@ def build() -> Check:
                 bad.append(("the completion reason is classified without the operation's completion config", t))
         ck.ob("R1.faithful-item-per-branch", fn_construct(cr), not bad and trs, (bad[0][0]) if bad else "", cell=sname)
 
+    # the error of a failed item: a branch fails by raising the CallableRuntimeError that its child context built from the error it recorded
+    # (type / message / data / stack trace); the item must carry those very fields - it is what replay() reads back from the record
+    cre = prog.cls("exceptions", "CallableRuntimeError")
+
+    def self_factory_err(it, state):
+        o = Obj(cex, label="cexec")
+        e = Obj(exe_cls, label="exe0")
+        e.fields.update(index=Sym("exe0.index", TypeRef(prim="int")), func=Sym("exe0.func"))
+        w = Obj(ews, label="ews0")
+        err = Obj(cre, label="branch_error")
+        err.fields.update(message=Sym("rec.message", TypeRef(prim="str")), error_type=Sym("rec.type", TypeRef(prim="str")),
+                          data=Sym("rec.data", TypeRef(prim="str")), stack_trace=Sym("rec.stack_trace"))
+        err.args = [Sym("rec.message", TypeRef(prim="str"))]
+        w.fields.update(executable=e, _status=EnumVal(bstat.fq, "FAILED", bstat.enum_members["FAILED"]), _result=NONE, _is_result_set=Const(False), _error=err)
+        o.fields.update(executables_with_state=SeqVal("list", [w]), completion_config=Sym("cc"))
+        return o
+
+    def h_from_items2(it, f, sv, a, k, n):
+        it.emit("FROM_ITEMS", n, items_v=a[0] if a else None)
+        return Sym("batch")
+
+    trs = pm.run_function(cr, self_factory_err, None, cell=("_create_result", "FAILED/recorded-error"), extra_hooks={from_items.fq: h_from_items2})
+    bade = []
+    for t in trs:
+        fi = t.kinds("FROM_ITEMS")
+        items = fi[0].data["items_v"] if fi else None
+        err = items.items[0].fields.get("error") if isinstance(items, SeqVal) and items.items and isinstance(items.items[0], Obj) else None
+        got = {k_: (err.fields.get(k_, NONE).key() if isinstance(err, Obj) else None) for k_ in ("type", "message", "data", "stack_trace")}
+        want_e = {"type": "rec.type", "message": "rec.message", "data": "rec.data", "stack_trace": "rec.stack_trace"}
+        diff = {k_: got[k_] for k_ in want_e if got[k_] != want_e[k_] and not (k_ == "message" and got[k_] and "rec.message" in got[k_])}
+        if diff:
+            bade.append(f"a branch that failed with the recorded error (type rec.type, ...) is reported with {diff}: not the branch's actual error, and not what replay() "
+                        "rebuilds from the record")
+    ck.ob("R1.failed-item-carries-recorded-error", fn_construct(cr), not bade and trs, bade[0] if bade else f"{len(trs)} path(s)")
+
     # order: executables_with_state is built by one comprehension over self.executables
     ex = cex.methods["execute"]
     built = [st for st in ast.walk(ex.node) if isinstance(st, ast.Assign) and isinstance(st.targets[0], ast.Attribute)
